@@ -96,8 +96,16 @@ type c16Cfg struct {
 	lateThen    bool // Then is registered by a later message ("then k") instead of by the issuing handler
 	clientStop  bool // offer PID.Shutdown from the client goroutine in addition to PoisonPill
 	tmoRev      bool // later requests have the shorter timeout
+	burst       bool // the first go issues calls 0 and 1 from the same handler invocation
 	horizon     int
 	bound       int
+}
+
+func (c c16Cfg) nGo() int {
+	if c.burst {
+		return c.nReq - 1
+	}
+	return c.nReq
 }
 
 func (c c16Cfg) effMode(k int) reentrancy.Mode {
@@ -250,6 +258,14 @@ func (a *c16Requester) Receive(rctx *ReceiveContext) {
 	switch msg.kind {
 	case "go":
 		a.issue(rctx)
+		if w.cfg.burst && msg.id == 0 {
+			a.issue(rctx) // the first go issues two requests from the same handler invocation
+		}
+		if w.cfg.hold && msg.id == 0 {
+			w.rHeld.Store(true)
+			<-w.gateR
+			w.rHeld.Store(false)
+		}
 	case "cancel":
 		w.mu.Lock()
 		call := w.calls[msg.id]
@@ -325,11 +341,6 @@ func (a *c16Requester) issue(rctx *ReceiveContext) {
 			w.mu.Unlock()
 			call.Then(a.continuation(k))
 		}
-	}
-	if cfg.hold && k == 0 {
-		w.rHeld.Store(true)
-		<-w.gateR
-		w.rHeld.Store(false)
 	}
 }
 
@@ -540,7 +551,7 @@ func c16Run(t *testing.T, cfg c16Cfg, c *vsched.Chooser) vsched.Outcome {
 			}
 			w.mu.Unlock()
 			var evs []c16Event
-			if !stopped && goTold < cfg.nReq {
+			if !stopped && goTold < cfg.nGo() {
 				evs = append(evs, c16Event{"go", 0, func() { tellR(&c16Msg{kind: "go", id: goTold}); goTold++ }})
 			}
 			if !stopped && mTold < cfg.nMsg {
@@ -820,6 +831,10 @@ func TestVerifC16(t *testing.T) {
 			// PID.Shutdown from the client goroutine in addition to PoisonPill
 			mk("allowall-clientstop"+sfx, A, 0, hold, func(c *c16Cfg) { c.clientStop = true; c.nMsg = 1 }),
 			mk("stash-clientstop"+sfx, S, 0, hold, func(c *c16Cfg) { c.clientStop = true; c.nMsg = 1 }),
+			// two requests issued by the same handler invocation (two blocking calls outstanding at once)
+			mk("stash-burst"+sfx, S, 0, hold, func(c *c16Cfg) { c.burst = true }),
+			mk("stash-burst-max2"+sfx, S, 2, hold, func(c *c16Cfg) { c.burst = true; c.tmoRev = true }),
+			mk("allowall-burst-max1"+sfx, A, 1, hold, func(c *c16Cfg) { c.burst = true; c.override[1] = 2 }),
 		)
 	}
 	var scs []vsched.Scenario
@@ -829,7 +844,7 @@ func TestVerifC16(t *testing.T) {
 			Cfg: vsched.Config{Scenario: "c16-" + cfg.name, Bound: cfg.bound, SplitDepth: 2,
 				Params: map[string]any{"horizon": cfg.horizon, "maxInFlight": cfg.maxInFlight, "nReq": cfg.nReq, "nMsg": cfg.nMsg, "hold": cfg.hold,
 					"default_mode": mode[cfg.defMode], "override": fmt.Sprint(cfg.override[:cfg.nReq]), "api": fmt.Sprint(cfg.api[:cfg.nReq]),
-					"cancel_in_turn": cfg.cancelTurn, "late_then": cfg.lateThen, "client_shutdown": cfg.clientStop, "timeouts_reversed": cfg.tmoRev}},
+					"cancel_in_turn": cfg.cancelTurn, "late_then": cfg.lateThen, "client_shutdown": cfg.clientStop, "timeouts_reversed": cfg.tmoRev, "burst": cfg.burst}},
 			Run: func(c *vsched.Chooser) vsched.Outcome { return c16Run(t, cfg, c) },
 		})
 	}
